@@ -152,6 +152,14 @@ pub enum Op {
     HPos { slot: u8 },
     HReadToEnd { slot: u8 },
     HClose { slot: u8 },
+    /// write_vectored with the data split into slices at len*a>>16 and len*b>>16
+    HWriteV { slot: u8, data: DataSpec, a: u16, b: u16 },
+    /// read_vectored into two buffers of n1 and n2 bytes
+    HReadV { slot: u8, n1: u32, n2: u32 },
+    /// BufRead::read_until(byte)
+    HReadUntil { slot: u8, byte: u8 },
+    /// Seek::rewind
+    HRewind { slot: u8 },
 }
 
 impl Op {
@@ -197,6 +205,10 @@ impl Op {
             Op::HPos { .. } => "h_pos",
             Op::HReadToEnd { .. } => "h_read_to_end",
             Op::HClose { .. } => "h_close",
+            Op::HWriteV { .. } => "h_write_vectored",
+            Op::HReadV { .. } => "h_read_vectored",
+            Op::HReadUntil { .. } => "h_read_until",
+            Op::HRewind { .. } => "h_rewind",
         }
     }
     pub fn is_mutation(&self) -> bool {
@@ -219,6 +231,7 @@ impl Op {
                 | Op::HCreate { .. }
                 | Op::HWrite { .. }
                 | Op::HWriteAll { .. }
+                | Op::HWriteV { .. }
                 | Op::HSetLen { .. }
         )
     }
